@@ -123,8 +123,20 @@ def medium_phase(tier):
     return gen
 
 
+def corridor_phase(tier):
+    def gen():
+        # index into games.corridor_games(): (d, ascending, owner) in generator order, 4 per d
+        picks = [(16, 5), (20, 6), (21, 7)] if tier == "quick" else [(8, 1), (12, 2), (16, 5), (17, 3), (20, 6), (21, 7), (22, 8), (23, 9)]
+        for idx, key in picks:
+            for prune in (True, False):
+                yield dict(kind="corridor", idx=idx, tkey=key, prune=prune)
+    return gen
+
+
 def phases(tier):
-    return [Phase("medium-size-games", enum=medium_phase(tier), note="stopping games of 20-300 states, no oracle needed"),
+    return [Phase("deep-corridors", enum=corridor_phase(tier),
+                  note="corridors of 200-1030 states: a renumbering changes how many sweeps a value needs to arrive"),
+            Phase("medium-size-games", enum=medium_phase(tier), note="stopping games of 20-300 states, no oracle needed"),
             Phase("stopping-games", strategy=lambda: game_cases(10 if tier == "quick" else 12), examples=(900, 40000)),
             Phase("boards", strategy=lambda: board_cases(3, 3) if tier == "quick" else board_cases(4, 4),
                   examples=(50, 1200)),
@@ -185,12 +197,15 @@ def check_case(case):
         v.key = case
         v.cls("board")
         small = False
-    elif case["kind"] == "medium":
+    elif case["kind"] in ("medium", "corridor"):
         from harness import medium
-        game = medium.medium_game(case["seed"], case["n_inner"])
+        if case["kind"] == "medium":
+            game = medium.medium_game(case["seed"], case["n_inner"])
+        else:
+            game = list(games.corridor_games())[case["idx"]][0]
         t = derived_transform(game, case["tkey"])
         v.key = case
-        v.cls("medium")
+        v.cls(case["kind"])
         small = False
     else:
         game = case["game"]
@@ -222,7 +237,7 @@ def check_case(case):
             v.cls("cycle")
         v.nontrivial = changed and (dead2 or facts.has_cycle)
     else:
-        if case["kind"] == "medium":
+        if case["kind"] in ("medium", "corridor"):
             oa, ia = medium.solve_medium(game, prune)
             ob, ib = medium.solve_medium(tgame, prune)
             if oa is None or ob is None:
